@@ -114,8 +114,12 @@ Definition emit_hp (c : call) (u : unit_) (oldR newR maxHP : float) (dmg : bool)
   else
     let u1 := if dmg then set_last u (c_source c) else u in
     let e := EHP (c_key c) (c_target c) oldR newR (maxHP * oldR) (maxHP * newR) dmg in
-    if ltb 0 newR then ((match u_state u1 with Dead => u1 | _ => set_state u1 Alive end), [e])   (* death is final *)
-    else (set_state u1 (if c_limbo c then Limbo else Dead), [e; ELimbo (c_target c)]).
+    match u_state u1 with
+    | Dead => (u1, [e])                                    (* death is final *)
+    | _ =>
+      if ltb 0 newR then (set_state u1 Alive, [e])
+      else (set_state u1 (if c_limbo c then Limbo else Dead), [e; ELimbo (c_target c)])
+    end.
 
 (* ---- modify.go: the new HP ratio of each of the three HP mutators ---- *)
 Definition new_hp_set (maxHP amount : float) : float :=
